@@ -1,5 +1,6 @@
 (* The single extracted entry point: one S-expression in, one string out.  Definitions only. *)
 From Verif Require Import Base Tokens Scanner Parser Lazy Algebra Coding Contrasts Frame Eval Design.
+From Verif Require TransformsCmd.
 Local Close Scope Qc_scope.
 Local Close Scope Q_scope.
 Local Open Scope string_scope.
@@ -148,7 +149,7 @@ Section Run.
                                 | _ => res_sexp newgroup_sexp (new_group cx (dec_mode mode) d f) end]
                          end) news)]
         end
-    | _, _ => L [A "bad-command"; A cmd]
+    | _, _ => TransformsCmd.transforms_cmd cmd args
     end.
 
   Definition run (x : sexp) : string :=
